@@ -31,6 +31,8 @@ let parse_stmt () : stmt =
   | "di" -> let a = hb (next ()) in SDropIndex a
   | "in" -> let a = hb (next ()) in SInsert a
   | "bad" -> SBad
+  | "ctu" -> let a = hb (next ()) in SCreateTableU a
+  | "ciu" -> let a = hb (next ()) in let b = hb (next ()) in SCreateIndexU (a, b)
   | s -> failwith ("stmt " ^ s)
 
 let parse_mstmt () = let m = nat_of_int (next_int ()) in let s = parse_stmt () in (m, s)
@@ -46,7 +48,8 @@ let parse_dir () : mdir = let n = next_int () in times n parse_file
 let parse_obj () : obj =
   let k = match next () with "t" -> KTable | "i" -> KIndex | "v" -> KView | "g" -> KTrigger | s -> failwith ("kind " ^ s) in
   let n = hb (next ()) in let t = hb (next ()) in let r = n_of_int (next_int ()) in
-  { o_kind = k; o_name = n; o_tbl = t; o_rows = r }
+  let insp = next () = "1" in
+  { o_kind = k; o_name = n; o_tbl = t; o_rows = r; o_insp = insp }
 
 let parse_src () : source =
   match next () with
@@ -58,9 +61,10 @@ let parse_src () : source =
     let n = next_int () in
     SrcHCL (times n (fun () ->
       let m = nat_of_int (next_int ()) in let name = hb (next ()) in
+      let unins = next () = "1" in
       let ni = next_int () in
       let idx = times ni (fun () -> let m = nat_of_int (next_int ()) in let i = hb (next ()) in (m, i)) in
-      { ht_m = m; ht_name = name; ht_idx = idx }))
+      { ht_m = m; ht_name = name; ht_idx = idx; ht_unins = unins }))
   | s -> failwith ("src " ^ s)
 
 let b2s b = if b then "1" else "0"
@@ -79,23 +83,27 @@ let () =
         let cmdname = next () in
         let latest = next_int () in
         let changes = next () = "1" in
+        let excl = next () = "1" in
         let cmd = match cmdname with
           | "validate" -> CValidate | "lint" -> CLint (nat_of_int latest) | "diff" -> CDiff
           | "sdiff" -> CSchemaDiff | "sapply" -> CSchemaApply | "sinspect" -> CSchemaInspect
           | "checkpoint" -> CCheckpoint | s -> failwith ("cmd " ^ s) in
         let fs = parse_bits () in
+        let qs = parse_bits () in
         let rs = parse_bits () in
         let nobj = next_int () in
         let d = times nobj parse_obj in
         let dir = parse_dir () in
         let from = parse_src () in
         let to_ = parse_src () in
-        let (((o, same), empty), dirw) = observe norm cmd dir from to_ changes fs rs d in
+        let (((o, same), empty), dirw) = observe norm cmd excl dir from to_ changes (fs, qs) rs d in
         (* markers are 100*script+k; directory files are scripts 1..n.  DevLoader.base
            reports a failing statement of a base file (not one of the latest N) by file only *)
         let nfiles = Stdlib.List.length dir in
         let os = match o with
           | OOk -> "ok" | ORefused -> "refused" | ORestoreFail -> "rfail"
+          (* the inspector's error does not say which read failed: the observation is the exit itself *)
+          | OInspectFail _ -> "ifail" | OSnapshotFail -> "snapfail"
           | OFail m ->
             let m = int_of_nat m in
             let f = m / 100 in
